@@ -36,5 +36,8 @@ def replay(data):
 
 
 def main(tier):
-    return xhprop.main(PROP, tier, FILE, obligations(tier), FUNCTIONS, ASSUMPTIONS, OUTSIDE, signature, extra_chars=(1 if tier == "thorough" else 0),
+    from vlib import core
+    extra = core.run_obligations("harness.fsconf", [dict(name="fs_conformance", func="ob_fs_conformance", args=(), budget_s=120,
+                                 bounds="21 concrete mutate/discovery scenarios: ModelFS vs real MemoryFS vs native temp directory (validation of the model filesystem; a disagreement is fatal)")])
+    return xhprop.main(PROP, tier, FILE, obligations(tier), FUNCTIONS, ASSUMPTIONS, OUTSIDE, signature, extra_chars=(1 if tier == "thorough" else 0), extra_results=extra,
                        bounds="all decode-outcome vectors over the tried encodings, 6 orders + explicit encoding, {.sm,.ssc} x output x backup x name clashes x 5 edit operations with symbolic values <=2")
